@@ -1,9 +1,9 @@
 """C04 - pack repositories are crash-atomic (ordering of the durable effects of commit / autopack)."""
-import contextlib
 from symx.runner import Ob
+from . import packcoll as pc
 
 ID = "C04"
-PR = "breezy.bzr.pack_repo"
+PR = pc.PR
 P = PR + ":RepositoryPackCollection."
 FUNCTIONS = [P + "_commit_write_group", P + "allocate", P + "autopack", P + "_do_autopack", P + "plan_autopack_combinations",
              P + "_execute_pack_operations", P + "_save_pack_names", P + "_diff_pack_names",
@@ -20,196 +20,21 @@ OUTSIDE = ["crash points inside NewPack.finish / Packer.pack (file and index wri
            "leftover files in upload/ and obsolete_packs/ (harmless by assumption)", "more packs than the bound"]
 
 
-class _Agg:
-    """aggregate index stand-in: knows which packs are in memory"""
-    def __init__(self, coll):
-        self.coll = coll
-        self.combined_index = self
-
-    def add_index(self, index, pack):
-        pass
-
-    def remove_index(self, index):
-        pass
-
-    def key_count(self):
-        t = 0
-        for p in self.coll.packs:
-            t = t + p.count
-        return t
-
-
-class _Pack:
-    def __init__(self, name, count, content, events):
-        self.name, self.count, self.content = name, count, content
-        self.index_sizes = [1, 1, 1, 1]
-        self.revision_index = self.inventory_index = self.text_index = self.signature_index = self.chk_index = object()
-        self.events = events
-        outer = self
-
-        class PT:
-            @staticmethod
-            def move(a, b):
-                events.append(("obsolete", outer.name))
-
-            @staticmethod
-            def mkdir(d):
-                pass
-        self.pack_transport = PT
-
-    def get_revision_count(self):
-        return self.count
-
-    def file_name(self):
-        return self.name + ".pack"
-
-    def __lt__(self, other):
-        return self.name < other.name
-
-
 def ob_commit_crash(cx):
-    R = cx.mod(PR)
-    E = cx.real("breezy.errors")
-    coll = object.__new__(R.RepositoryPackCollection)
-    events = []
-    n = cx.choose("existing_packs", 0, cx.p("npacks"))
-    packs = [_Pack("p%d" % i, cx.int("count%d" % i, 1, cx.p("maxcount")), {"old%d" % i}, events) for i in range(n)]
-    coll.packs = []
-    coll._packs_by_name = {}
-    coll._names = {}
-    for nm in ("revision_index", "inventory_index", "text_index", "signature_index"):
-        setattr(coll, nm, _Agg(coll))
-    coll.chk_index = None
-    for p in packs:
-        coll._names[p.name] = tuple(p.index_sizes)
-        coll.add_pack_to_memory(p)
-    disk = {"names": [(p.name, b"1 1 1 1") for p in packs]}
-    coll._packs_at_load = set(disk["names"])
-    coll._iter_disk_pack_index = lambda: [(None, (nm.encode("ascii"),), v) for nm, v in disk["names"]]
-
-    class Builder:
-        def __init__(self):
-            self.nodes = []
-
-        def add_node(self, key, value):
-            self.nodes.append((key[0].decode("ascii"), value))
-
-        def finish(self):
-            return list(self.nodes)
-    coll._index_builder_class = Builder
-
-    class ObsT:
-        @staticmethod
-        def list_dir(d):
-            return []
-
-        @staticmethod
-        def delete(f):
-            pass
-
-    class T:
-        @staticmethod
-        def put_file(name, f, mode=None):
-            disk["names"] = list(f)
-            events.append(("names", sorted(nm for nm, _v in f)))
-
-        @staticmethod
-        def clone(sub):
-            return ObsT
-    coll.transport = T
-
-    class IdxT:
-        @staticmethod
-        def move(a, b):
-            pass
-    coll._index_transport = IdxT
-    coll.lock_names = lambda: None
-    coll._unlock_names = lambda: None
-
-    class VF:
-        @staticmethod
-        def get_missing_compression_parent_keys():
-            return []
-
-    class Repo:
-        revisions = inventories = texts = signatures = VF
-
-        class controldir:
-            _get_file_mode = staticmethod(lambda: None)
-
-        class _format:
-            pack_compresses = False
-        is_locked = staticmethod(lambda: True)
-    coll.repo = Repo
-    coll._check_new_inventories = lambda: []
-    coll._resumed_packs = []
-    coll._restart_autopack = lambda: None
+    env = pc.build(cx, cx.p("npacks"), cx.p("maxcount"))
+    coll, events = env.coll, env.events
     new_count = cx.int("new_count", 1, cx.p("maxcount"))
     inserted = bool(cx.choose("data_inserted", 0, 1))
-
-    class NewPack(_Pack):
-        def data_inserted(self):
-            return inserted
-
-        def finish(self):
-            events.append(("finish", self.name))
-
-        def abort(self):
-            events.append(("abort", self.name))
-    coll._new_pack = NewPack("new", new_count, {"NEW"}, events)
-
-    class Packer:
-        def __init__(self, collection, to_combine, suffix, reload_func=None):
-            self.collection, self.to_combine = collection, list(to_combine)
-            self.new_pack = None
-
-        def pack(self):
-            total = 0
-            content = set()
-            for p in self.to_combine:
-                total = total + p.count
-                content |= p.content
-            self.new_pack = _Pack("auto%d" % len([e for e in events if e[0] == "finish"]), total, content, events)
-            events.append(("finish", self.new_pack.name))
-            self.collection.allocate(self.new_pack)
-            return self.new_pack
-    coll.normal_packer_class = Packer
-    by_name = {p.name: p for p in packs}
-    by_name["new"] = coll._new_pack
+    coll._new_pack = pc.WritablePack("new", new_count, {"NEW"}, events, inserted)
+    env.by_name["new"] = coll._new_pack
     coll._commit_write_group()
-    for p in coll.packs:
-        by_name.setdefault(p.name, p)
     for e in events:
-        if e[0] == "finish" and e[1] not in by_name:
+        if e[0] == "finish" and e[1] not in env.by_name:
             cx.require(False, "a pack was finished that the collection does not know: %r" % (e,))
-    old_content = set()
-    for p in packs:
-        old_content |= p.content
-    new_content = old_content | ({"NEW"} if inserted else set())
-    # every crash point: the state after the first k effects
-    for k in range(len(events) + 1):
-        pre = events[:k]
-        listed = sorted(p.name for p in packs)
-        for e in pre:
-            if e[0] == "names":
-                listed = e[1]
-        available = set(p.name for p in packs) | set(e[1] for e in pre if e[0] == "finish")
-        gone = set(e[1] for e in pre if e[0] == "obsolete")
-        for nm in listed:
-            cx.require(nm in available and nm not in gone,
-                       "after %d effect(s) %r the pack list names pack %s, which is %s" %
-                       (k, pre, nm, "already moved to obsolete_packs" if nm in gone else "not complete on disk yet"))
-        content = set()
-        for nm in listed:
-            content |= by_name[nm].content
-        cx.require(content == old_content or content == new_content,
-                   "after %d effect(s) the listed packs hold %r: neither the old nor the new set of revisions" % (k, sorted(content)))
-    final = sorted(nm for nm, _v in disk["names"])
-    final_content = set()
-    for nm in final:
-        final_content |= by_name[nm].content
-    cx.require(final_content == new_content, "after the commit the repository does not show the new set of revisions")
-    cx.require(sorted(coll._names) == final, "in-memory pack names differ from the written list")
+    new_content = env.old_content | ({"NEW"} if inserted else set())
+    pc.check_every_crash_point(cx, env, new_content)
+    cx.require(pc.listed_content(env) == new_content, "after the commit the repository does not show the new set of revisions")
+    cx.require(sorted(coll._names) == sorted(nm for nm, _v in env.disk["names"]), "in-memory pack names differ from the written list")
     if any(e[0] == "obsolete" for e in events):
         cx.cover("autopacked")
     if inserted:
